@@ -1,5 +1,6 @@
 (* C02 / C03, syntactic half: the statement parser of the model builds, from the tokens of a
-   template made of text, {{ e }} blocks, assignments, @if / @elseif / @else, @each (with @else),
+   template made of text, {{ e }} blocks, assignments, @if / @elseif / @else, @each and @for (with
+   @else; every clause of the @for header optional, the third an expression or an assignment),
    @break, @continue, @breakIf and @continueIf - nested to any depth, bodies of any length,
    empty bodies included - exactly the statement tree that the tokens spell.  Expressions go
    through Proofs/Pratt.v.  Together with Proofs/TemplateRefine.v (the evaluator on that tree is
@@ -9,6 +10,29 @@ From Coq Require Import String Lia.
 From TW Require Import Bytes GenToken GenParser Lexer Ast Parser GenTie Pratt ParseTotal FuelMono.
 
 (* ---------- concrete syntax of statements *)
+(* the third clause of a @for header: an expression (i++) or an assignment (i = i + 1) *)
+Inductive fpc := FPE (c : cst) | FPA (id eq : token) (c : cst).
+
+Definition flat_init (i : option (token * token * cst)) : list token :=
+  match i with Some (id, eq, c) => id :: eq :: flat c | None => [] end.
+Definition flat_cond (c : option cst) : list token := match c with Some c => flat c | None => [] end.
+Definition flat_post (p : option fpc) : list token :=
+  match p with Some (FPE c) => flat c | Some (FPA id eq c) => id :: eq :: flat c | None => [] end.
+Definition ast_init (i : option (token * token * cst)) : stmt :=
+  match i with Some (id, eq, c) => SAssign (eline id) (tlit id) (ast c) | None => SNull end.
+Definition ast_cond (c : option cst) : expr := match c with Some c => ast c | None => ENull end.
+Definition ast_post (p : option fpc) : stmt :=
+  match p with Some (FPE c) => SExpr (ast c) | Some (FPA id eq c) => SAssign (eline id) (tlit id) (ast c) | None => SNull end.
+Definition wf_init (i : option (token * token * cst)) : Prop :=
+  match i with Some (id, eq, c) => ttype id = T_IDENT /\ ttype eq = T_ASSIGN /\ wf c | None => True end.
+Definition wf_cond (c : option cst) : Prop := match c with Some c => wf c | None => True end.
+Definition wf_post (p : option fpc) : Prop :=
+  match p with
+  | Some (FPE c) => wf c
+  | Some (FPA id eq c) => ttype id = T_IDENT /\ ttype eq = T_ASSIGN /\ wf c
+  | None => True
+  end.
+
 Inductive sst :=
 | TText (t : token)
 | TCode (lb rb : token) (c : cst)                 (* {{ c }} *)
@@ -17,6 +41,8 @@ Inductive sst :=
 | TIf (kw lp rp endt : token) (c : cst) (body : list sst)
       (elifs : list (token * token * token * cst * list sst)) (els : option (token * list sst))
 | TEach (kw lp var inn rp endt : token) (c : cst) (body : list sst) (els : option (token * list sst))
+| TFor (kw lp s1 s2 rp endt : token) (init : option (token * token * cst)) (cond : option cst) (post : option fpc)
+       (body : list sst) (els : option (token * list sst))      (* @for(x = c; c; post) *)
 | TBreak (t : token)
 | TContinue (t : token)
 | TBreakIf (kw lp rp : token) (c : cst)
@@ -39,6 +65,9 @@ Fixpoint flat_s (s : sst) : list token :=
   | TEach kw lp var inn rp endt c body els =>
     kw :: lp :: var :: inn :: flat c ++ rp :: fs body ++
     match els with Some (te, eb) => te :: fs eb | None => [] end ++ [endt]
+  | TFor kw lp s1 s2 rp endt init cond post body els =>
+    kw :: lp :: flat_init init ++ s1 :: flat_cond cond ++ s2 :: flat_post post ++ rp :: fs body ++
+    match els with Some (te, eb) => te :: fs eb | None => [] end ++ [endt]
   | TBreak t => [t]
   | TContinue t => [t]
   | TBreakIf kw lp rp c => kw :: lp :: flat c ++ [rp]
@@ -57,6 +86,7 @@ Definition last_s (s : sst) : token :=
   | TClose rb => rb
   | TIf kw lp rp endt c body elifs els => endt
   | TEach kw lp var inn rp endt c body els => endt
+  | TFor kw lp s1 s2 rp endt init cond post body els => endt
   | TBreak t => t
   | TContinue t => t
   | TBreakIf kw lp rp c => rp
@@ -78,6 +108,9 @@ Fixpoint ast_s (s : sst) : stmt :=
   | TEach kw lp var inn rp endt c body els =>
     SEach (eline kw) (tlit var) (ast c) (asts body)
           (match els with Some (te, eb) => Some (asts eb) | None => None end)
+  | TFor kw lp s1 s2 rp endt init cond post body els =>
+    SFor (eline kw) (ast_init init) (ast_cond cond) (ast_post post) (asts body)
+         (match els with Some (te, eb) => Some (asts eb) | None => None end)
   | TBreak t => SBreak
   | TContinue t => SContinue
   | TBreakIf kw lp rp c => SBreakIf (eline kw) (ast c)
@@ -95,6 +128,8 @@ Fixpoint size_s (s : sst) : nat :=
     S (sz body + fold_right (fun e n => match e with (_, _, _, _, eb) => sz eb + n end)%nat O elifs +
        match els with Some (_, eb) => sz eb | None => O end)
   | TEach kw lp var inn rp endt c body els =>
+    S (sz body + match els with Some (_, eb) => sz eb | None => O end)
+  | TFor kw lp s1 s2 rp endt init cond post body els =>
     S (sz body + match els with Some (_, eb) => sz eb | None => O end)
   | _ => 1%nat
   end.
@@ -127,6 +162,10 @@ Fixpoint wf_s (s : sst) : Prop :=
   | TEach kw lp var inn rp endt c body els =>
     ttype kw = T_EACH /\ ttype lp = T_LPAREN /\ ttype inn = T_IN /\ ttype rp = T_RPAREN /\ ttype endt = T_END /\
     wf c /\ wfl body /\
+    match els with Some (te, eb) => ttype te = T_ELSE /\ wfl eb | None => True end
+  | TFor kw lp s1 s2 rp endt init cond post body els =>
+    ttype kw = T_FOR /\ ttype lp = T_LPAREN /\ ttype s1 = T_SEMI /\ ttype s2 = T_SEMI /\ ttype rp = T_RPAREN /\
+    ttype endt = T_END /\ wf_init init /\ wf_cond cond /\ wf_post post /\ wfl body /\
     match els with Some (te, eb) => ttype te = T_ELSE /\ wfl eb | None => True end
   | TBreak t => ttype t = T_BREAK
   | TContinue t => ttype t = T_CONTINUE
@@ -163,6 +202,12 @@ Lemma wf_each_unfold kw lp var inn rp endt c body els :
    wf c /\ wf_ss body /\ wf_else els).
 Proof. cbn [wf_s]. unfold wf_else. destruct els as [[te eb]|]; reflexivity. Qed.
 
+Lemma wf_for_unfold kw lp s1 s2 rp endt init cond post body els :
+  wf_s (TFor kw lp s1 s2 rp endt init cond post body els) <->
+  (ttype kw = T_FOR /\ ttype lp = T_LPAREN /\ ttype s1 = T_SEMI /\ ttype s2 = T_SEMI /\ ttype rp = T_RPAREN /\
+   ttype endt = T_END /\ wf_init init /\ wf_cond cond /\ wf_post post /\ wf_ss body /\ wf_else els).
+Proof. cbn [wf_s]. unfold wf_else. destruct els as [[te eb]|]; reflexivity. Qed.
+
 (* ---------- first tokens *)
 Lemma flat_s_cons s : wf_s s -> exists a r, flat_s s = a :: r /\
   inb (ttype a) block_guard_tokens = false /\ inb (ttype a) block_break_tokens = false.
@@ -172,6 +217,7 @@ Proof.
   - destruct W as (A & _). eexists lb, _. rewrite A. repeat split.
   - destruct W as (A & _). eexists lb, _. rewrite A. repeat split.
   - exists rb, []. rewrite W. repeat split.
+  - destruct W as (A & _). eexists kw, _. rewrite A. repeat split.
   - destruct W as (A & _). eexists kw, _. rewrite A. repeat split.
   - destruct W as (A & _). eexists kw, _. rewrite A. repeat split.
   - exists t, []. rewrite W. repeat split.
@@ -430,6 +476,148 @@ Lemma parseStatement_each f st0 :
    if ok4 then POk (SEach ln var arr body alt) st8 else POk SNull st8).
 Proof. intro H. cbn [parseStatement]. rewrite H. reflexivity. Qed.
 
+
+(* ---------- the header of @for *)
+Lemma first_not_stop c : wf c -> exists a r, flat c = a :: r /\ inb (ttype a) expr_stop_tokens = false.
+Proof.
+  induction c as [t|lp rp c IHc|o c1 c2 IHc1 IHc2|o c IHc|o c IHc|q col c1 c2 c3 IHc1 IHc2 IHc3|lb rb c1 c2 IHc1 IHc2|dot name c IHc|dot name lp rp c args IHc IHargs|lb rb els IHels] using cst_ind';
+    cbn [wf flat].
+  - intro W. exists t, []. split; [reflexivity|]. unfold atom_ast in W.
+    destruct (ttype t); try reflexivity; cbn in W; congruence.
+  - intros (H & _). exists lp, (flat c ++ [rp]). split; [reflexivity|]. rewrite H. reflexivity.
+  - intros (_ & W & _). destruct (IHc1 W) as (a & r & -> & E). exists a, (r ++ o :: flat c2). split; [reflexivity|exact E].
+  - intros (H & _). exists o, (flat c). split; [reflexivity|]. destruct (ttype o); try discriminate H; reflexivity.
+  - intros (_ & W & _). destruct (IHc W) as (a & r & -> & E). exists a, (r ++ [o]). split; [reflexivity|exact E].
+  - intros (_ & _ & W & _). destruct (IHc1 W) as (a & r & -> & E). eexists a, _. split; [reflexivity|exact E].
+  - intros (_ & _ & W & _). destruct (IHc1 W) as (a & r & -> & E). eexists a, _. split; [reflexivity|exact E].
+  - intros (_ & _ & W & _). destruct (IHc W) as (a & r & -> & E). eexists a, _. split; [reflexivity|exact E].
+  - intros (_ & _ & _ & _ & W & _). destruct (IHc W) as (a & r & -> & E). eexists a, _. split; [reflexivity|exact E].
+  - intros (H & _). eexists lb, _. split; [reflexivity|]. rewrite H. reflexivity.
+Qed.
+
+Lemma not_stop_types a : inb (ttype a) expr_stop_tokens = false ->
+  tok_eqb (ttype a) T_RBRACES = false /\ tok_eqb (ttype a) T_SEMI = false /\ tok_eqb (ttype a) T_RPAREN = false.
+Proof. destruct (ttype a); cbn; intro H; try discriminate H; repeat split. Qed.
+
+(* an assignment x = c inside a header, entered on the token before it (prev) *)
+Lemma header_assign_parses st prev id eq c rest :
+  ttype id = T_IDENT -> ttype eq = T_ASSIGN -> wf c -> stops P_LOWEST rest -> not_lparen rest -> rest <> [] ->
+  conv (fun f => parseEmbeddedCode f (setToks st (prev :: id :: eq :: flat c ++ rest)))
+       (SAssign (eline id) (tlit id) (ast c)) (setToks st (lastc c :: rest)).
+Proof.
+  intros Hid Heq Wc Hs Hn RN. destruct (first_not_rbraces c Wc) as (a & r' & Ea & Ha).
+  eapply (conv_ext _ (fun f => match parseExpression f P_LOWEST (setToks st (flat c ++ rest)) with
+                               | POk v st3 => POk (SAssign (eline id) (tlit id) v) st3
+                               | POOF => POOF end)).
+  { intro f. unfold parseEmbeddedCode. rewrite advance_cons.
+    unfold curIs. rewrite curT_cons, Hid. change (tok_eqb T_IDENT T_RBRACES) with false. cbv match.
+    rewrite peekIs_cons, Heq. change (tok_eqb T_IDENT T_IDENT && tok_eqb T_ASSIGN T_ASSIGN) with true. cbv match.
+    unfold parseAssignStmt. rewrite curT_cons. rewrite (expectPeek_ok _ _ _ _ _ Heq). cbn [negb].
+    rewrite Ea. cbn [app]. rewrite advance_cons. unfold curIs. rewrite curT_cons, Ha. reflexivity. }
+  eapply (conv_bind0 (fun f => parseExpression f P_LOWEST (setToks st (flat c ++ rest)))
+                     (fun f v st3 => POk (SAssign (eline id) (tlit id) v) st3)).
+  - apply parse_of_tokens_is_the_tree; [exact Wc|exact Hs|intros _; exact Hn].
+  - apply conv_const.
+Qed.
+
+Definition last_init (prev : token) (i : option (token * token * cst)) : token :=
+  match i with Some (_, _, c) => lastc c | None => prev end.
+Definition last_cond (prev : token) (c : option cst) : token := match c with Some c => lastc c | None => prev end.
+Definition last_post (prev : token) (p : option fpc) : token :=
+  match p with Some (FPE c) | Some (FPA _ _ c) => lastc c | None => prev end.
+
+Lemma for_init_parses st lp init s1 tail :
+  wf_init init -> ttype s1 = T_SEMI ->
+  conv (fun f => if negb (peekIs (setToks st (lp :: flat_init init ++ s1 :: tail)) T_SEMI)
+                 then parseEmbeddedCode f (setToks st (lp :: flat_init init ++ s1 :: tail))
+                 else POk SNull (setToks st (lp :: flat_init init ++ s1 :: tail)))
+       (ast_init init) (setToks st (last_init lp init :: s1 :: tail)).
+Proof.
+  intros W Hs. destruct init as [[[id eq] c]|]; cbn [flat_init ast_init last_init app].
+  - destruct W as (Hid & Heq & Wc). rewrite peekIs_cons, Hid. change (tok_eqb T_IDENT T_SEMI) with false. cbn [negb].
+    apply header_assign_parses; try assumption.
+    + left. rewrite Hs. reflexivity.
+    + cbn [not_lparen]. rewrite Hs. discriminate.
+    + discriminate.
+  - rewrite peekIs_cons, Hs. change (tok_eqb T_SEMI T_SEMI) with true. cbn [negb]. apply conv_const.
+Qed.
+
+Lemma for_cond_parses st s1 cond s2 tail :
+  wf_cond cond -> ttype s2 = T_SEMI ->
+  conv (fun f => if negb (peekIs (setToks st (s1 :: flat_cond cond ++ s2 :: tail)) T_SEMI)
+                 then parseExpression f P_LOWEST (advance (setToks st (s1 :: flat_cond cond ++ s2 :: tail)))
+                 else POk ENull (setToks st (s1 :: flat_cond cond ++ s2 :: tail)))
+       (ast_cond cond) (setToks st (last_cond s1 cond :: s2 :: tail)).
+Proof.
+  intros W Hs. destruct cond as [c|]; cbn [flat_cond ast_cond last_cond app].
+  - destruct (first_not_stop c W) as (a & r' & Ea & Ha). destruct (not_stop_types a Ha) as (_ & Hsemi & _).
+    rewrite Ea. cbn [app]. rewrite peekIs_cons, Hsemi. cbn [negb]. rewrite advance_cons.
+    change (a :: r' ++ s2 :: tail) with ((a :: r') ++ s2 :: tail). rewrite <- Ea.
+    apply parse_of_tokens_is_the_tree; [exact W|left; rewrite Hs; reflexivity|].
+    intros _. cbn [not_lparen]. rewrite Hs. discriminate.
+  - rewrite peekIs_cons, Hs. change (tok_eqb T_SEMI T_SEMI) with true. cbn [negb]. apply conv_const.
+Qed.
+
+Lemma for_post_parses st s2 post rp tail :
+  wf_post post -> ttype rp = T_RPAREN ->
+  conv (fun f => if negb (peekIs (setToks st (s2 :: flat_post post ++ rp :: tail)) T_RPAREN)
+                 then parseEmbeddedCode f (setToks st (s2 :: flat_post post ++ rp :: tail))
+                 else POk SNull (setToks st (s2 :: flat_post post ++ rp :: tail)))
+       (ast_post post) (setToks st (last_post s2 post :: rp :: tail)).
+Proof.
+  intros W Hrp. destruct post as [[c|id eq c]|]; cbn [flat_post ast_post last_post app].
+  - (* an expression *)
+    destruct (first_not_stop c W) as (a & r' & Ea & Ha). destruct (not_stop_types a Ha) as (Hrb & _ & Hrpn).
+    rewrite Ea. cbn [app]. rewrite peekIs_cons, Hrpn. cbn [negb].
+    eapply (conv_ext _ (fun f => match parseExpression f P_LOWEST (setToks st (flat c ++ rp :: tail)) with
+                                 | POk e st1 => POk (SExpr e) (if peekIs st1 T_RBRACES then advance st1 else st1)
+                                 | POOF => POOF end)).
+    { intro f. unfold parseEmbeddedCode. rewrite advance_cons.
+      unfold curIs. rewrite curT_cons, Hrb. cbv match.
+      assert (C2 : tok_eqb (ttype a) T_IDENT && peekIs (setToks st (a :: r' ++ rp :: tail)) T_ASSIGN = false).
+      { apply andb_false_iff. right. unfold peekIs, peekT. cbn [toks setToks].
+        destruct r' as [|b r'']; cbn [app].
+        - rewrite Hrp. reflexivity.
+        - assert (N : ttype b <> T_ASSIGN) by (apply (no_assign c W); rewrite Ea; right; left; reflexivity).
+          destruct (ttype b); try reflexivity. congruence. }
+      rewrite C2. rewrite Ea. reflexivity. }
+    eapply (conv_bind0 (fun f => parseExpression f P_LOWEST (setToks st (flat c ++ rp :: tail)))
+                       (fun f e st1 => POk (SExpr e) (if peekIs st1 T_RBRACES then advance st1 else st1))).
+    + apply parse_of_tokens_is_the_tree; [exact W|left; rewrite Hrp; reflexivity|].
+      intros _. cbn [not_lparen]. rewrite Hrp. discriminate.
+    + cbv beta. rewrite peekIs_cons, Hrp. change (tok_eqb T_RPAREN T_RBRACES) with false. cbv match. apply conv_const.
+  - (* an assignment *)
+    destruct W as (Hid & Heq & Wc). rewrite peekIs_cons, Hid. change (tok_eqb T_IDENT T_RPAREN) with false. cbn [negb].
+    apply header_assign_parses; try assumption.
+    + left. rewrite Hrp. reflexivity.
+    + cbn [not_lparen]. rewrite Hrp. discriminate.
+    + discriminate.
+  - rewrite peekIs_cons, Hrp. change (tok_eqb T_RPAREN T_RPAREN) with true. cbn [negb]. apply conv_const.
+Qed.
+
+Lemma parseStatement_for f st0 :
+  ttype (curT st0) = T_FOR -> parseStatement (S f) st0 =
+  (let ln := eline (curT st0) in
+   let '(ok, st1) := expectPeek st0 T_LPAREN in
+   if negb ok then POk SNull st1 else
+   do (init, st2) <- (if negb (peekIs st1 T_SEMI) then parseEmbeddedCode f st1 else POk SNull st1);
+   let '(ok2, st3) := expectPeek st2 T_SEMI in
+   if negb ok2 then POk SNull st3 else
+   do (c, st4) <- (if negb (peekIs st3 T_SEMI) then parseExpression f P_LOWEST (advance st3)
+                   else POk ENull st3);
+   let '(ok3, st5) := expectPeek st4 T_SEMI in
+   if negb ok3 then POk SNull st5 else
+   do (post, st6) <- (if negb (peekIs st5 T_RPAREN) then parseEmbeddedCode f st5 else POk SNull st5);
+   let '(ok4, st7) := expectPeek st6 T_RPAREN in
+   if negb ok4 then POk SNull st7 else
+   do (body, st8) <- parseBody f st7;
+   do (alt, st9) <- (if peekIs st8 T_ELSE
+                     then do (a, s) <- parseBody f (advance st8); POk (Some a) s
+                     else POk None st8);
+   let '(ok5, st10) := expectPeek st9 T_END in
+   if ok5 then POk (SFor ln init c post body alt) st10 else POk SNull st10).
+Proof. intro H. cbn [parseStatement]. rewrite H. reflexivity. Qed.
+
 Lemma elifs_sizes n (IH : forall s, (size_s s <= n)%nat -> wf_s s -> Ps s) :
   forall elifs, (fold_right (fun e m => match e with (_, _, _, _, eb) => sizes eb + m end)%nat O elifs <= n)%nat ->
   wf_elifs elifs -> Forall (fun e => match e with (_, _, _, _, eb) => Forall Ps eb end) elifs.
@@ -600,6 +788,66 @@ Proof.
     cbv beta. subst tail.
     exact (else_parses els endt st (lasts rp body) rest Fl Wels He
              (fun alt => SEach (eline kw) (tlit var) (ast c) (asts body) alt)).
+  - (* @for *)
+    apply (proj1 (wf_for_unfold _ _ _ _ _ _ _ _ _ _ _)) in W.
+    destruct W as (Hkw & Hlp & Hs1 & Hs2 & Hrp & He & Wi & Wc & Wp & Wb & Wels).
+    cbn [size_s] in Hs. fold (sizes body) in Hs.
+    assert (Fb : Forall Ps body) by (apply (Forall_Ps_of_size n IH); [lia|exact Wb]).
+    assert (Fl : match els with Some (_, eb) => Forall Ps eb | None => True end).
+    { destruct els as [[te eb]|]; [|exact I]. destruct Wels as [_ Wx]. apply (Forall_Ps_of_size n IH); [unfold sizes in *; lia|exact Wx]. }
+    cbn [flat_s last_s ast_s]. fold (flats body). fold (asts body).
+    change (match els with Some (te, eb) => te :: concat (map flat_s eb) | None => [] end) with (flat_else flats els).
+    change (match els with Some (te, eb) => Some (filter (fun x => negb (stmt_is_null x)) (map ast_s eb)) | None => None end)
+      with (match els with Some (te, eb) => Some (asts eb) | None => None end).
+    set (tail := flat_else flats els ++ endt :: rest).
+    assert (Etoks : (kw :: lp :: flat_init init ++ s1 :: flat_cond cond ++ s2 :: flat_post post ++ rp :: flats body ++ flat_else flats els ++ [endt]) ++ rest =
+                    kw :: lp :: flat_init init ++ s1 :: flat_cond cond ++ s2 :: flat_post post ++ rp :: flats body ++ tail).
+    { subst tail. cbn [app]. rewrite <- !app_assoc. cbn [app]. rewrite <- !app_assoc. cbn [app]. rewrite <- !app_assoc. cbn [app].
+      rewrite <- !app_assoc. reflexivity. }
+    rewrite Etoks.
+    assert (Btail : brk tail).
+    { subst tail. destruct els as [[te eb]|]; cbn [flat_else app brk].
+      - destruct Wels as [Hte _]. rewrite Hte. reflexivity.
+      - rewrite He. reflexivity. }
+    set (t2 := flat_cond cond ++ s2 :: flat_post post ++ rp :: flats body ++ tail).
+    set (t4 := flat_post post ++ rp :: flats body ++ tail).
+    apply (conv_shift (fun f =>
+      match (if negb (peekIs (setToks st (lp :: flat_init init ++ s1 :: t2)) T_SEMI)
+             then parseEmbeddedCode f (setToks st (lp :: flat_init init ++ s1 :: t2))
+             else POk SNull (setToks st (lp :: flat_init init ++ s1 :: t2))) with
+      | POk ini st2 =>
+        let '(ok2, st3) := expectPeek st2 T_SEMI in
+        if negb ok2 then POk SNull st3 else
+        do (cc, st4) <- (if negb (peekIs st3 T_SEMI) then parseExpression f P_LOWEST (advance st3) else POk ENull st3);
+        let '(ok3, st5) := expectPeek st4 T_SEMI in
+        if negb ok3 then POk SNull st5 else
+        do (pst, st6) <- (if negb (peekIs st5 T_RPAREN) then parseEmbeddedCode f st5 else POk SNull st5);
+        let '(ok4, st7) := expectPeek st6 T_RPAREN in
+        if negb ok4 then POk SNull st7 else
+        do (bd, st8) <- parseBody f st7;
+        do (alt, st9) <- (if peekIs st8 T_ELSE
+                          then do (a, s) <- parseBody f (advance st8); POk (Some a) s
+                          else POk None st8);
+        let '(ok5, st10) := expectPeek st9 T_END in
+        if ok5 then POk (SFor (eline kw) ini cc pst bd alt) st10 else POk SNull st10
+      | POOF => POOF
+      end)).
+    { intro f. rewrite parseStatement_for by (rewrite curT_cons; exact Hkw). cbv zeta. rewrite curT_cons.
+      rewrite (expectPeek_ok _ _ _ _ _ Hlp). cbn [negb]. reflexivity. }
+    eapply (conv_bind0 _ _ (ast_init init) (setToks st (last_init lp init :: s1 :: t2))).
+    { exact (for_init_parses st lp init s1 t2 Wi Hs1). }
+    cbv beta. rewrite (expectPeek_ok _ _ _ _ _ Hs1). cbn [negb]. subst t2.
+    eapply (conv_bind0 _ _ (ast_cond cond) (setToks st (last_cond s1 cond :: s2 :: t4))).
+    { exact (for_cond_parses st s1 cond s2 t4 Wc Hs2). }
+    cbv beta. rewrite (expectPeek_ok _ _ _ _ _ Hs2). cbn [negb]. subst t4.
+    eapply (conv_bind0 _ _ (ast_post post) (setToks st (last_post s2 post :: rp :: flats body ++ tail))).
+    { exact (for_post_parses st s2 post rp (flats body ++ tail) Wp Hrp). }
+    cbv beta. rewrite (expectPeek_ok _ _ _ _ _ Hrp). cbn [negb].
+    eapply (conv_bind0 _ _ (asts body) (setToks st (lasts rp body :: tail))).
+    { exact (body_parses body Fb Wb st rp _ Btail). }
+    cbv beta. subst tail.
+    exact (else_parses els endt st (lasts rp body) rest Fl Wels He
+             (fun alt => SFor (eline kw) (ast_init init) (ast_cond cond) (ast_post post) (asts body) alt)).
   - cbn [wf_s] in W. cbn [flat_s app ast_s last_s]. exists 1%nat. intros fuel Hf. destruct fuel as [|f]; [lia|].
     rewrite (parseStatement_at f st t _ T_BREAK W). reflexivity.
   - cbn [wf_s] in W. cbn [flat_s app ast_s last_s]. exists 1%nat. intros fuel Hf. destruct fuel as [|f]; [lia|].
@@ -649,6 +897,7 @@ Proof.
   - cbn [wf_s] in W. rewrite W. reflexivity.
   - apply (proj1 (wf_if_unfold _ _ _ _ _ _ _ _)) in W. destruct W as (_ & _ & _ & H & _). rewrite H. reflexivity.
   - apply (proj1 (wf_each_unfold _ _ _ _ _ _ _ _ _)) in W. destruct W as (_ & _ & _ & _ & H & _). rewrite H. reflexivity.
+  - apply (proj1 (wf_for_unfold _ _ _ _ _ _ _ _ _ _ _)) in W. destruct W as (_ & _ & _ & _ & _ & H & _). rewrite H. reflexivity.
   - cbn [wf_s] in W. rewrite W. reflexivity.
   - cbn [wf_s] in W. rewrite W. reflexivity.
   - destruct W as (_ & _ & H & _). rewrite H. reflexivity.
